@@ -58,6 +58,9 @@ def quick_matrix():
         inst("fixedu", 3, "TC4", st="uint8_t", L=3),
         inst("fixed", 4, "TC12", st="uint16_t", L=4, opts=["--few-ranges"]),
         inst("small", 2, "TC300", K=2, L=2, opts=["--few-ranges", "--no-ctors"]),  # 300-byte elements (scratch buffers, byte counts)
+        # FixedCapacityVector<T,1> and <T,0> are separate specialisations (one slot and no array; no storage at all)
+        inst("fixed", 1, "NTR", st="uint8_t", L=1, K=2),
+        inst("fixed", 0, "TR", st="uint8_t", L=0),
     ]
 
 
@@ -98,6 +101,11 @@ def thorough_matrix():
         m.append(inst("fixed", 3, el, st="uint8_t", K=2, L=3, opts=fr))
         m.append(inst("small", 3, el, st=st, alloc=al, K=2, L=2))
         m.append(inst("small", 2, el, st=st, alloc=al, K=2, L=2))
+    # the N=1 and N=0 specialisations of FixedCapacityVector
+    for el in ("TC4", "TC12", "TR", "NTR", "PTN"):
+        m.append(inst("fixed", 1, el, st="uint8_t", L=1, K=2))
+        m.append(inst("fixed", 0, el, st="uint8_t", L=0))
+    m.append(inst("fixedu", 1, "TC12", st="uint8_t", L=1))
     # wide elements
     m.append(inst("small", 2, "TC300", K=2, L=2, opts=fr))
     m.append(inst("small", 3, "TC300", st="uint8_t", alloc="ledgerrealloc", L=4, opts=fr))
